@@ -97,6 +97,66 @@ SEEDS = {
         property="C20", change="resolveSubtable skips the base-directory candidate for absolute names",
         needs="an absolute name in an include / later list member that exists both at that path and nested under the including file's directory",
         first="caught (C20: precedence mismatch; regenerated candidate program also changes)", strengthened=""),
+    # ---- second round (fresh agents, told to avoid the first round's mechanisms)
+    "C01b-setbefore-endsegment": dict(
+        property="C01", change="setBefore guard `pos >= 2` became `pos > 0` while the branch reads chars[pos - 2]",
+        needs="an input whose very first character is U+FFFF (segment mark), at least two elements, room to reach position 1",
+        first="caught (C01: ASan heap-buffer-overflow read in translateString with the exactly sized caller array)", strengthened=""),
+    "C02b-texthyphens-inlen": dict(
+        property="C02", change="lou_hyphenate (braille mode) sizes textHyphens by the braille length instead of the text length",
+        needs="braille-mode hyphenation with a dictionary and contractions, back-translation longer than the braille",
+        first="caught (C02: ASan heap-buffer-overflow in lou_hyphenate)", strengthened=""),
+    "C04b-pass-copy-guard": dict(
+        property="C04", change="translatePass one-element copy guard `(length + 1) > maxlength` became `length > maxlength`",
+        needs="a pass2-4 rule that lengthens the text, capacity that the first pass still fits but the later pass hits exactly",
+        first="missed by C04 (caught by C01 and C06 as ASan crashes; the regenerated guard also breaks fwd_stage_copy_fits)",
+        strengthened="generated multipass tables with their own alphabets in the C04 table pool"),
+    "C05b-endword-nocontractions": dict(
+        property="C05", change="the noContractions test dropped from the endword case of for_selectRule",
+        needs="noContractions mode, an endword rule, a match at a word end",
+        first="caught (C05: engine mismatch)", strengthened=""),
+    "C06b-lookback-literal-ge": dict(
+        property="C06", change="passFindCharacters `count > lookback` became `>=`: a rule whose look-back covers its first literal exactly is chained with length 0",
+        needs="a look-back rule whose first literal is exactly as long as the look-back and a later-defined rule with a literal matching at the same position",
+        first="missed",
+        strengthened="passFindCharacters' selection regenerated (GChain passfind_*) with theorem chaining_literal_is_the_reference; generator aimed at exact look-back cover and later competitors"),
+    "C07b-back-cursor-bound": dict(
+        property="C07", change="backward cursor look-up guarded by `*cursorPos < *outlen` (wrong length)",
+        needs="back-translation with outputPos, output shorter than input, cursor index in [outlen, inlen) on an indicator cell",
+        first="caught (C07: clause cursor = outputPos[cursor])", strengthened=""),
+    "C08b-grouping-display-alone": dict(
+        property="C08", change="compileGrouping adds the display mappings of the grouping characters only when the translation table is compiled too",
+        needs="a table with a `grouping` rule, a display-only call (lou_charToDots) before the first translation",
+        first="missed", strengthened="pool table with a grouping rule and inputs containing its characters"),
+    "C09b-typeform-bound": dict(
+        property="C09", change="typeform marks written only for k < *inlen",
+        needs="typeform supplied and an expanding translation (outlen > inlen)",
+        first="caught (C09: typeform marks)", strengthened=""),
+    "C10b-typebuf-memset-outlen": dict(
+        property="C10", change="typebuf cleared over *outlen instead of input.length when typeform is NULL",
+        needs="typeform NULL, capacity smaller than the input, no correction pass, an earlier call that left bits behind",
+        first="caught (C10: presence dependence)", strengthened=""),
+    "C11b-chardots-chain-if": dict(
+        property="C11", change="putCharDotsMapping walks one link instead of to the end of the char-to-dots bucket chain",
+        needs="at least four characters in one display bucket (values congruent mod 1123)",
+        first="caught (C11: display round trip)", strengthened=""),
+    "C12b-finalize-order-variable": dict(
+        property="C12", change="finalizeTable's rebucketing loop tests the moved rule's opcode instead of the chain member's",
+        needs="a context rule with a >= 2 character literal starting with a based capital and an always rule of equal length in the folded bucket",
+        first="missed",
+        strengthened="case-folding tables (based capitals, mixed-case context literals among always/word-position rules) in C12; the rebucketing condition regenerated with theorem rebucketing_uses_the_insertion_order"),
+    "C13b-rulename-linked-early": dict(
+        property="C13", change="addRuleName links the node into the list before validating the name; the error path frees it",
+        needs="a swap/grouping line with valid operands and a non-letter in its name",
+        first="caught (C13: ASan double free in deallocateRuleNames, from the byte mutations of the kitchen-sink table)", strengthened=""),
+    "C14b-display-cache-stale": dict(
+        property="C14", change="same display-table cache slip as C15-display-cache-stale, offered for C14",
+        needs="display rules added at run time to a cached list until its display table grows and moves",
+        first="missed by C14 (caught by C15)", strengthened="C14 got a display-rule operation and every fifth sequence runs without arena slack"),
+    "C03c-nocont-mode-check": dict(
+        property="C03", change="the noContractions test dropped from the nocont case of for_selectRule (doNocont returns at once in that mode)",
+        needs="noContractions mode, a nocont rule, input containing its string",
+        first="missed (C03 used dotsIO only for generated tables)", strengthened="other mode bits (noContractions, partialTrans, ...) on the generated tables"),
 }
 
 
